@@ -75,6 +75,14 @@ PLANS = {
                 rule="repair (both entry points, seeded/unseeded heuristic) from flip walks, inserts and removals "
                      "with repair disabled; distinct non-trivial = distinct successful Repair events",
                 nontrivial=_key_event({"Repair"})),
+    "C03": dict(level="fault_enumeration", families=[("remove", 8, 16), ("insert", 8, 16), ("flips", 8, 16), ("repair", 8, 16)],
+                rule="every mutating call that returned Err or Skipped in the insert/remove/flip/repair histories "
+                     "(natural failures: duplicates, reused uuids, degenerate points, non-flippable / boundary / "
+                     "out-of-range / stale / foreign handles, repair failures); distinct non-trivial = distinct "
+                     "failed mutating events (kind, args, history tag)",
+                nontrivial=lambda e: ((e["ev"], json.dumps(e.get("args"), sort_keys=True), e.get("tag"))
+                                      if e["ev"] in ("Insert", "Remove", "Flip", "Repair")
+                                      and e.get("res", {}).get("kind") in ("Err", "Skipped") else None)),
 }
 
 
